@@ -2,6 +2,7 @@ import Blue.Model.Log
 import Blue.Model.LogHeader
 import Blue.Model.EntryCodec
 import Blue.Model.Crc32c
+import Blue.Model.FsyncCore
 import Blue.Driver.Util
 /-! Driver verbs for the log model (property C12), instance token `log`.
 
@@ -16,6 +17,20 @@ import Blue.Driver.Util
       batch   := entry(+entry)*          one `WriteBatch`
       frame   := batch(|batch)*          batches merged into one append (the write core's merge)
       `w [rb=N] [wb=N] frame*`           write all frames, summarise the file, drain the reader
+      `w … frame* sync round*`           the same, then replay the rounds of the fsync queue through
+                                         `Blue.FsyncCore.rstep` (the fsync core with the system call
+                                         split into issue and return, where the call can fail):
+        round   := member(,member)*:outcome   one batch of the fsync queue, in the order they ran
+        member  := <k>                   the member's append went into frame number k (1-based);
+                                         0 = a `ConcurrentLogBuilder::fsync()` caller (watermark 0)
+        outcome := n | o<L> | f<L>       no fdatasync was made for the batch / one was issued when
+                                         the file was L bytes long and returned 0 / … and FAILED
+      Offsets of the core model are file offsets: a member's watermark is the end of its frame
+      (strictly monotone in the cumulative payload count the code compares).  The reply gets
+      ` sync=` and, per round, `<n|o|f><T|F>@<durable>`: the outcome, what every member is
+      answered, the largest length covered by a successfully returned fdatasync afterwards; a
+      round where the model would (not) have issued the call the implementation did not (did)
+      make ends the replay with `CALL-EXPECTED` / `NO-CALL-EXPECTED`.
       `r <hex>`                          drain the reader over arbitrary bytes
       `t frame* @ k range(,range)*`      write, then for every cut `n` in the ranges read `take n`,
                                          starting at the offset where append number `k` began
@@ -213,8 +228,74 @@ def splitAt (toks : List String) : List String × List String :=
 def isKnob (t : String) : Bool := t.startsWith "rb=" || t.startsWith "wb="
 def knobOk (t : String) : Bool := ((t.drop 3).toString.toNat?).isSome
 
+/-! ### the rounds of the fsync queue -/
+
+/-- file offset at which each append ends -/
+def frameEnds : List (List Nat) → Nat → List Nat
+  | [], _ => []
+  | b :: bs, pos =>
+    let e := pos + (appendAt P 2 pos b).length
+    e :: frameEnds bs e
+
+inductive Outcome where
+  | noCall
+  | called (len : Nat) (ok : Bool)
+
+structure RoundReq where
+  members : List Nat
+  outcome : Outcome
+
+def parseOutcome (s : String) : Option Outcome :=
+  match s.toList with
+  | ['n'] => some .noCall
+  | 'o' :: r => (String.ofList r).toNat?.map fun l => .called l true
+  | 'f' :: r => (String.ofList r).toNat?.map fun l => .called l false
+  | _ => none
+
+def parseRound (tok : String) : Option RoundReq :=
+  match tok.splitOn ":" with
+  | [ms, o] =>
+    match allSome ((ms.splitOn ",").map (·.toNat?)), parseOutcome o with
+    | some ms, some o => if ms.isEmpty then none else some ⟨ms, o⟩
+    | _, _ => none
+  | _ => none
+
+/-- the watermark of a member: 0 for an `fsync()` caller, the end of its frame otherwise -/
+def watermark (ends : List Nat) (k : Nat) : Option Nat :=
+  if k = 0 then some 0 else ends[k - 1]?
+
+def renderRound (letter : String) (a : Blue.FsyncCore.Ans) (s : Blue.FsyncCore.RSt) : String :=
+  letter ++ (if a.ok then "T" else "F") ++ "@" ++ toString s.durable
+
+/-- replay: before a round every member's own write has returned (`append` enters the fsync queue
+    after the write queue answered), and when a call is issued the file is as long as the probe
+    saw it -/
+def replayRounds (ends : List Nat) : List RoundReq → Blue.FsyncCore.RSt → List String → List String
+  | [], _, acc => acc.reverse
+  | r :: rs, s, acc =>
+    match allSome (r.members.map (watermark ends)) with
+    | none => ("bad-member" :: acc).reverse
+    | some inputs =>
+      let s := (Blue.FsyncCore.rstep s (.wrote (Blue.FsyncCore.acc inputs))).1
+      let s := match r.outcome with
+        | .called len _ => (Blue.FsyncCore.rstep s (.wrote len)).1
+        | .noCall => s
+      match Blue.FsyncCore.rstep s (.enter inputs), r.outcome with
+      | (s', some a), .noCall => replayRounds ends rs s' (renderRound "n" a s' :: acc)
+      | (_, some _), .called _ _ => ("NO-CALL-EXPECTED" :: acc).reverse
+      | (_, none), .noCall => ("CALL-EXPECTED" :: acc).reverse
+      | (s', none), .called _ ok =>
+        match Blue.FsyncCore.rstep s' (.ret ok) with
+        | (s'', some a) => replayRounds ends rs s'' (renderRound (if ok then "o" else "f") a s'' :: acc)
+        | (_, none) => ("stuck" :: acc).reverse
+
+def splitSync (toks : List String) : List String × Option (List String) :=
+  if toks.contains "sync" then (toks.takeWhile (· ≠ "sync"), some ((toks.dropWhile (· ≠ "sync")).drop 1))
+  else (toks, none)
+
 def handle : List String → String
   | "w" :: rest =>
+    let (rest, sync) := splitSync rest
     let knobs := rest.filter isKnob
     if !(knobs.all knobOk) then "bad-op"
     else
@@ -224,7 +305,15 @@ def handle : List String → String
         let file := writeAll P (gs.map (·.buf)) 0
         let s := Task.spawn fun _ => summary file
         let d := Task.spawn fun _ => drain file (gs.length + 1)
-        s.get ++ " " ++ d.get
+        match sync with
+        | none => s.get ++ " " ++ d.get
+        | some rtoks =>
+          match allSome (rtoks.map parseRound) with
+          | none => "bad-op"
+          | some rounds =>
+            let ends := frameEnds (gs.map (·.buf)) 0
+            let rr := replayRounds ends rounds Blue.FsyncCore.init []
+            s.get ++ " " ++ d.get ++ " sync=" ++ ",".intercalate rr
   | ["r", h] =>
     match parseHex h with
     | none => "bad-op"
